@@ -63,6 +63,27 @@ Section Redeliver.
   Definition n_acked (rs : list (settle * list ev)) : nat :=
     length (filter (fun r => settle_eqb (fst r) Acked) rs).
 
+  (** ** the acceptor for an observed redelivery history of one message from a GoChannel-like
+      source: every attempt on its own passes the C17 acceptor for a fresh copy of the original;
+      no attempt before the last one was acked; the destination accepted at most once; the
+      original is as it was *)
+  Fixpoint attempts_ok (c : comp) (src : N) (obj : msg) (beh : list attempt) (obs : list (settle * list ev)) {struct obs} : bool :=
+    match obs, beh with
+    | [], _ => true
+    | r :: obs', (cd, pb) :: beh' =>
+        relay_monitor dec atoi rk c (Inp src (gochan_copy obj) cd pb) (snd r) (fst r)
+        && attempts_ok c src obj beh' obs'
+    | _ :: _, [] => false
+    end.
+  Definition same_content (a b : msg) : bool :=
+    (uuid a =? uuid b) && (payload a =? payload b) && meta_eqb (content (mmeta a)) (content (mmeta b)).
+  Definition redelivery_monitor (c : comp) (src : N) (obj : msg) (beh : list attempt)
+             (obs : list (settle * list ev)) (after : msg) : bool :=
+    attempts_ok c src obj beh obs
+    && forallb (fun r => negb (settle_eqb (fst r) Acked)) (removelast obs)
+    && Nat.leb (length (all_accepted obs)) 1
+    && same_content after obj.
+
   (** a message that is requeued again and again: every round is a redelivery sequence from a
       GoChannel-like source; a round that ends with an Ack hands the relayed copy on (it comes
       back to the requeue topic later, as the next round's original).
